@@ -26,6 +26,7 @@ type zzRepStream struct {
 	ghost  *zzGhost
 	acks   []int64
 	payloadIsEntry bool // the entries carry marshalled write requests: the oracle compares terms only
+	noAckOracle    bool // the harness is about the apply side only (C07): acknowledgements are just recorded
 	fenced bool  // set by the harness once NewTerm of a higher term has been answered
 	head   int64 // head offset reported in that NewTerm response
 }
@@ -40,6 +41,10 @@ func (s *zzRepStream) Recv() (*proto.Append, error) {
 }
 func (s *zzRepStream) Send(a *proto.Ack) error {
 	o := a.Offset
+	if s.noAckOracle {
+		s.acks = append(s.acks, o)
+		return nil
+	}
 	if vKnown("KF-C04-late-ack-of-reported-entry", s.fenced && o <= s.head) {
 		// the sync loop of the old stream may still acknowledge an entry that the NewTerm response
 		// already reported as part of the log
